@@ -40,15 +40,22 @@ pub struct CaseIn {
     pub headers: Vec<(String, String)>,
     #[serde(default)]
     pub body: String,
+    /// raw requests / canned responses: index of the chunk before which the body stream fails
+    #[serde(default)]
+    pub fail_at: Option<usize>,
+    /// calls answered by a canned response (status, `headers`, `body`, `fail_at`) instead of the server
+    #[serde(default)]
+    pub canned_status: Option<u16>,
 }
 
 impl CaseIn {
     pub fn raw_spec(&self) -> crate::svc::RawSpec {
-        crate::svc::RawSpec { method: self.http_method.clone(), uri: self.uri.clone(), headers: self.headers.clone(), body: self.body.clone(), seed: self.id }
+        crate::svc::RawSpec { method: self.http_method.clone(), uri: self.uri.clone(), headers: self.headers.clone(), body: self.body.clone(), seed: self.id, fail_at: self.fail_at }
     }
 
     pub fn call_spec(&self) -> crate::svc::CallSpec {
-        crate::svc::CallSpec { method: self.method.clone(), args: crate::svc::Args(self.args.clone()), script: self.script.clone(), seed: self.id }
+        crate::svc::CallSpec { method: self.method.clone(), args: crate::svc::Args(self.args.clone()), script: self.script.clone(), seed: self.id,
+            canned: self.canned_status.map(|status| crate::loopback::Canned { status, headers: self.headers.clone(), body: self.body.chars().map(|c| c as u32 as u8).collect(), fail_at: self.fail_at }) }
     }
 }
 
